@@ -37,6 +37,7 @@ type peerHist struct {
 	idx        int
 	actor      time.ActorID
 	attached   bool
+	gcFree     bool // attached with disable_gc: no vector row, not a participant of the minimum vector
 	reported   time.VersionVector
 	recv       []delivered
 	recvFrom   int64 // deliveries are complete for serverSeq > recvFrom
@@ -89,6 +90,12 @@ func (h *History) OnLocalChange(p *Peer) {
 				ph.idx, id.Lamport(), ph.seenLamp)
 		}
 		for a, l := range ph.seenVV {
+			if ph.gcFree {
+				// a GC-free attachment is synchronised by lamport only (its
+				// contract: commutative edits, no tombstones); the pointwise
+				// vector rule is checked for participating clients
+				break
+			}
 			if id.VersionVector().VersionOf(a) < l {
 				h.failf("VV-NOT-DOMINATING", "c%d created a change with vv[%s]=%d < %d seen before",
 					ph.idx, a.String(), id.VersionVector().VersionOf(a), l)
@@ -172,6 +179,7 @@ func (h *History) OnExchange(p *Peer, ex *world.Exchange) {
 	if _, isAttach := ex.Req.(*api.AttachDocumentRequest); isAttach {
 		// a new attachment starts a new session: checkpoints restart
 		ph.attached = true
+		ph.gcFree = disableGC
 		ph.haveCP = false
 		ph.recv = nil
 		ph.recvFrom = 0
@@ -221,7 +229,7 @@ func (h *History) OnExchange(p *Peer, ex *world.Exchange) {
 		if !disableGC && len(res.VersionVector) > 0 {
 			h.MinVVChecks++
 			for _, q := range h.peers {
-				if !q.attached {
+				if !q.attached || q.gcFree {
 					continue
 				}
 				for a, l := range res.VersionVector {
